@@ -41,5 +41,6 @@ PROPS = {
     "C12": prog("hist", HIST3, q(4, 3000, 100), t(5, 40000, 160, 120), assumptions=COMMON_ASSUME),
     "C15": prog("hist", ["base", "dbg"], q(5, 3000, 100), t(8, 40000, 120, 120), assumptions=COMMON_ASSUME),
     "C19": custom(pure),
+    "C16": prog("hist", ["base", "dbg"], q(6, 2500, 100), t(8, 30000, 160, 120), assumptions=COMMON_ASSUME),
     "C18": prog("hist", HIST3, q(4, 3000, 100), t(5, 40000, 160, 120), assumptions=COMMON_ASSUME),
 }
